@@ -16,6 +16,15 @@ LEVEL = 'proof'
 
 logging.disable(logging.CRITICAL)
 
+
+def regen(ctx):
+    """coq/Gen/C19Shape.v from the current source (fail closed: an unrecognised construct raises)"""
+    from translate import c19_shape
+    text, info = c19_shape.translate(ctx.repo)
+    ctx.write_gen('C19Shape', text)
+    ctx.extra['translated_functions'] = info['skeleton_functions']
+    ctx.extra['translated_statements'] = info['skeleton_statements']
+
 PREAMBLE = '''
 Definition cks (l : list Z) : Z := fold_left (fun acc b => (acc * 257 + b + 1) mod 1000000007) l 0.
 Definition dig (l : list Z) := (zlen l, cks l, firstn 4 l).
@@ -555,19 +564,23 @@ def run_avctp(ctx):
 
 
 # ============================================================================= AVDTP streams
-OPS = ['configure', 'open', 'start', 'suspend', 'close', 'abort']
+CORE_OPS = ['configure', 'open', 'start', 'suspend', 'close', 'abort']
+BARE_OPS = ['get_configuration', 'reconfigure', 'delay_report']      # signalling commands without a Stream procedure
+OPS = CORE_OPS + BARE_OPS
 OPS_COQ = {'configure': 'OpConfigure', 'open': 'OpOpen', 'start': 'OpStart', 'suspend': 'OpSuspend',
-           'close': 'OpClose', 'abort': 'OpAbort'}
+           'close': 'OpClose', 'abort': 'OpAbort', 'get_configuration': 'OpGetConfiguration',
+           'reconfigure': 'OpReconfigure', 'delay_report': 'OpDelayReport'}
 IDLE, CONFIGURED, OPEN, STREAMING, CLOSING, ABORTING = range(6)
 
 
 def stream_legal(op, st):
     return {'configure': st == IDLE, 'open': st == CONFIGURED, 'start': st in (CONFIGURED, OPEN),
-            'suspend': st == STREAMING, 'close': st in (OPEN, STREAMING), 'abort': st != IDLE}[op]
+            'suspend': st == STREAMING, 'close': st in (OPEN, STREAMING), 'abort': st != IDLE,
+            'get_configuration': st in (CONFIGURED, OPEN, STREAMING), 'reconfigure': st == OPEN, 'delay_report': True}[op]
 
 
 def stream_next(op, st):
-    if not stream_legal(op, st):
+    if not stream_legal(op, st) or op in BARE_OPS:
         return st
     return {'configure': CONFIGURED, 'open': OPEN, 'start': STREAMING, 'suspend': OPEN, 'close': IDLE, 'abort': IDLE}[op]
 
@@ -670,6 +683,12 @@ class StreamRig:
                 coro = stream.stop()
             elif op == 'close':
                 coro = stream.close()
+            elif op == 'get_configuration':
+                coro = client.get_configuration(remote.seid)
+            elif op == 'reconfigure':
+                coro = client.send_command(avdtp.Reconfigure_Command(remote.seid, source.configuration))
+            elif op == 'delay_report':
+                coro = client.send_command(avdtp.DelayReport_Command(remote.seid, 10))
             else:
                 # the initiating side's abort procedure; a tree without Stream.abort() only
                 # offers the bare signalling command
@@ -717,7 +736,7 @@ def stream_oracle(ops, trace):
         if o[0] != o[3]:
             return f'{op}:states-differ', (f'after {ops[:i]} the procedure {op} left the initiator in state {o[0]} and the acceptor '
                                            f'in state {o[3]}')
-        if not legal and (code != 1 or o[:5] != prev[:5]):
+        if not legal and (code != (2 if op in BARE_OPS else 1) or o[:5] != prev[:5]):
             return f'{op}:illegal-not-refused', (f'after {ops[:i]} (state {st}) the illegal procedure {op} returned {code} and '
                                                  f'changed {prev} to {o}')
         if legal and (code != 0 or o[0] != want):
@@ -730,9 +749,13 @@ def stream_oracle(ops, trace):
 def run_streams(ctx):
     rng = ctx.rng.fork('streams')
     seqs = [c['ops'] for c in corpus('stream')]
-    depth = 4 if ctx.quick() else 5
-    for d in range(1, depth + 1):
+    # exhaustive: every sequence over the 9 operations up to `full`, over the 6 stream procedures up to `core`
+    full, core = (3, 4) if ctx.quick() else (4, 5)
+    depth = core
+    for d in range(1, full + 1):
         seqs.extend([list(s) for s in itertools.product(OPS, repeat=d)])
+    for d in range(full + 1, core + 1):
+        seqs.extend([list(s) for s in itertools.product(CORE_OPS, repeat=d)])
     for _ in range(ctx.n(150, 2000)):
         # longer walks, biased towards legal moves so that deep states are visited
         st = IDLE
@@ -743,17 +766,31 @@ def run_streams(ctx):
             ops.append(op)
             st = stream_next(op, st)
         seqs.append(ops)
+    ctx.extra['stream_exhaustive_depth_all_ops'] = full
     ctx.extra['stream_exhaustive_depth'] = depth
     # The model is a finite-state machine: its complete step table (576 states x 6 operations) is
     # evaluated once by the kernel, runs are table look-ups.
-    table_expr = ("(map pair_obs all_pairs, map (fun p => map (fun o => let '(p1, r) := step p o in "
-                  "(sres_code r, pair_obs p1)) all_ops) all_pairs)")
-    states, rows = ctx.coq_eval(M_STREAM, [table_expr])[0]
+    # states and results are packed into integers (a 300 KB pretty-printed table is slow to print and parse)
+    pre = ('Definition b2z (b : bool) : Z := if b then 1 else 0.\n'
+           'Definition pcode (p : pair) : Z := ((((Z.of_nat (sst_code (src_st p)) * 2 + b2z (src_rtp p)) * 2 + b2z (snk_has p)) * 6 '
+           '+ Z.of_nat (sst_code (snk_st p))) * 2 + b2z (snk_rtp p)) * 2 + b2z (snk_acc p).\n')
+    table_expr = ("map (fun p => (pcode p, map (fun o => let '(p1, r) := step p o in "
+                  "Z.of_nat (sres_code r) + 3 * pcode p1) all_ops)) all_pairs")
+    rows = ctx.coq_eval(M_STREAM, [table_expr], preamble=pre)[0]
+
+    def unpack(c):
+        c, acc = divmod(c, 2)
+        c, rtp = divmod(c, 2)
+        c, st2 = divmod(c, 6)
+        c, has = divmod(c, 2)
+        st1, rtp1 = divmod(c, 2)
+        return [st1, bool(rtp1), bool(has), st2, bool(rtp), bool(acc)]
+
     table = {}
-    for st_, row in zip(norm(states), norm(rows)):
-        for op, (code, nxt) in zip(OPS, row):
-            table[(tuple(st_), op)] = (code, nxt)
-    if len(table) != 576 * 6:
+    for code, row in rows:
+        for op, e in zip(OPS, row):
+            table[(tuple(unpack(code)), op)] = (e % 3, unpack(e // 3))
+    if len(table) != 576 * len(OPS):
         raise RuntimeError(f'stream model table has {len(table)} entries')
     ctx.extra['stream_model_table_entries'] = len(table)
 
